@@ -8,7 +8,8 @@ Correspondence, per case (language, configuration, Rust source):
     extracted keyword predicates (good_C10_kw, good_C10_swift_labels) on the declaring positions that
     lib/extract.py finds in the real text, and the grammar validators: the extracted Gallina recogniser of
     the TypeScript declaration grammar (Spec/C10TsGrammar.v), the extracted Gallina recogniser of the Go declaration grammar
-    (Spec/C10GoGrammar.v: tokenizer with semicolon insertion + recursive descent, run on every real Go file), CPython ast.parse + a declaration grammar over
+    (Spec/C10GoGrammar.v: tokenizer with semicolon insertion + recursive descent, run on every real Go file), the extracted Gallina recogniser of the
+    Swift declaration grammar (Spec/C10SwGrammar.v: tokenizer + recursive descent, run on every real Swift file), CPython ast.parse + a declaration grammar over
     its AST + import against lib/pydantic_stub for Python, the template recognisers of lib/extract.py
     (nothing unparsed, no anomaly) for all six, plus `= _` in a Scala parameter list;
   * dom_C10 / known_C10 (extracted) on the IR the REAL parser produced classify the case.
@@ -29,11 +30,11 @@ NAME_ERRORS = []   # Python modules that only import after an unbound name is pr
 #  suppressed; its witness stays in WITNESSES below and must pass, dotless packages stay in configs(): a regression is a violation)
 PREDICTS = {
     'C10-scala-default': {'scala-default'},
-    'C10-swift-label': {'swift-label'},
+    'C10-swift-label': {'swift-label', 'sw-grammar'},
     'C10-python-generic-alias': {'py-grammar', 'py-import-at-generic-alias'},
     'C10-python-empty-union': {'py-syntax'},
     'C10-python-digit-name': {'py-syntax', 'identifier', 'template'},
-    'C10-digit-name': {'identifier', 'template', 'ts-grammar', 'go-grammar'},
+    'C10-digit-name': {'identifier', 'template', 'ts-grammar', 'go-grammar', 'sw-grammar'},
     'C10-python-generic-enum-arg': {'py-import-not-subscriptable'},
     'C10-go-keyword-name': {'go-grammar'},
 }
@@ -420,6 +421,8 @@ def judge(chk, cases, tag):
         if lang == 'go':
             goq.append((k, f'(c10_go_parse {S(text)})'))
             goq.append((('cls', k), f'(c10_go_cls {back.items_sx(r["ir"])})'))
+        if lang == 'swift':
+            goq.append((('sw', k), f'(c10_sw_parse {S(text)})'))
     cfgkeys = sorted(set((cases[k][0], json.dumps(cases[k][1], sort_keys=True)) for k in idx))
     cfgq = [f'(c10_cfg {l} {back.cfg_sx(json.loads(c))})' for l, c in cfgkeys]
     goa = dict(zip([k for k, _ in goq], vf.model([q for _, q in goq])))
@@ -466,6 +469,9 @@ def judge(chk, cases, tag):
         if k in goa and goa[k] == 'none':
             fails.append('go-grammar')
             why.append('the extracted recogniser of the Go declaration grammar (Spec/C10GoGrammar.v) rejects the text')
+        if goa.get(('sw', k)) == 'none':
+            fails.append('sw-grammar')
+            why.append('the extracted recogniser of the Swift declaration grammar (Spec/C10SwGrammar.v) rejects the text')
         if vf.sx_get(kwa[j], 'kw') != 'true':
             fails.append('keyword')
             why.append('a declared name that is a keyword of the language is not escaped')
@@ -623,8 +629,12 @@ def phase_folder(chk, n):
             files = {f.name: f.read_text(errors='replace') for f in sorted(out.iterdir()) if f.is_file()}
             lex = vf.model([f'(c10_lex {lang} {S(t)})' for t in files.values()])
             gog = vf.model([f'(c10_go_parse {S(t)})' for t in files.values()]) if lang == 'go' else [None] * len(files)
-            for (fn, t), lx, gg in zip(files.items(), lex, gog):
+            swg = vf.model([f'(c10_sw_parse {S(t)})' for t in files.values()]) if lang == 'swift' else [None] * len(files)
+            for (fn, t), lx, gg, sg in zip(files.items(), lex, gog, swg):
                 fails, why = [], []
+                if sg == 'none':
+                    fails.append('sw-grammar')
+                    why.append(f'{fn}: rejected by the extracted recogniser of the Swift declaration grammar (Spec/C10SwGrammar.v)')
                 if gg == 'none':
                     fails.append('go-grammar')
                     why.append(f'{fn}: rejected by the extracted recogniser of the Go declaration grammar (Spec/C10GoGrammar.v)')
@@ -672,6 +682,7 @@ def lex_expectations(chk):
     tsans = vf.model([f'(c10_ts_parse {S(t)})' for (l, _), t in zip(files, texts) if l == 'typescript'])
     tsit = iter(tsans)
     goit = iter(vf.model([f'(c10_go_parse {S(t)})' for (l, _), t in zip(files, texts) if l == 'go']))
+    swit = iter(vf.model([f'(c10_sw_parse {S(t)})' for (l, _), t in zip(files, texts) if l == 'swift']))
     blame = {'scala-default': 'C10-scala-default', 'py-grammar': 'C10-python-generic-alias'}
     for (lang, f), t, a in zip(files, texts, ans):
         chk.count('expectation_files')
@@ -685,6 +696,9 @@ def lex_expectations(chk):
         if lang == 'go' and next(goit) == 'none':
             fails = fails + ['go-grammar']
             why = why + ['rejected by the extracted recogniser of the Go declaration grammar']
+        if lang == 'swift' and next(swit) == 'none':
+            fails = fails + ['sw-grammar']
+            why = why + ['rejected by the extracted recogniser of the Swift declaration grammar']
         name = pathlib.Path(f).parent.name
         for k in fails:
             if k == 'py-grammar' and not any('Subscript' in w for w in why):
@@ -705,6 +719,7 @@ def run(chk):
     chk.assumptions = [
         'the six lexers of Spec/C10Spec.v are the definition of "delimiters, string literals and comments are closed" (no compiler of the five non-Python languages is installed)',
         'the Go declaration grammar is the recogniser of Spec/C10GoGrammar.v (written from the language specification; function bodies are only checked to be balanced token runs)',
+        'the Swift declaration grammar is the recogniser of Spec/C10SwGrammar.v (written from the Summary of the Grammar of The Swift Programming Language; the bodies of init / func are only checked to be balanced token runs; line breaks are admitted between declarations / members, after `{`, before `}` and after a comma of a case / parameter list only)',
         'grammar conformance is validated, not proved: CPython ast.parse + import against lib/pydantic_stub for Python; template recognisers of lib/extract.py for the others',
         'doc text is restricted to the safe predicate c10_doc_ok (doc-induced breakage is C15)',
         'a Python NameError at import is name resolution (C09 / C11 / C12) and a duplicate Enum member name is a naming collision (C02): both counted, not judged here; any other import failure is judged',
@@ -805,6 +820,9 @@ def replay(chk, path):
         if d['lang'] == 'go' and vf.model([f'(c10_go_parse {S(text)})'])[0] == 'none':
             fails = fails + ['go-grammar']
             why = why + ['rejected by the extracted recogniser of the Go declaration grammar (Spec/C10GoGrammar.v)']
+        if d['lang'] == 'swift' and vf.model([f'(c10_sw_parse {S(text)})'])[0] == 'none':
+            fails = fails + ['sw-grammar']
+            why = why + ['rejected by the extracted recogniser of the Swift declaration grammar (Spec/C10SwGrammar.v)']
         print('grammar        :', fails, why)
         bad = lex[0] != 'balanced' or fails or vf.sx_get(kw, 'kw') != 'true' or vf.sx_get(kw, 'labels') != 'true'
         return 1 if bad else 0
